@@ -54,6 +54,11 @@ def run(ctx):
                 ctx.violation("input-modified", {"op": "print", "src": src, "model": m,
                                                  "why": "TransformJSONProtoToDSL modified the model it was given"})
     gmodels = [m for m in graphprops.gen_models(ctx, n // 2)]
+    # degenerate type restrictions (a userset restriction without relation name, first or after another one): a builder that
+    # "cleans" them must not do it in the caller's list
+    for refs in ([[S("user"), [1, []], []]], [[S("user"), [0], []], [S("group"), [1, []], S("")]], [[S("group"), [1, []], []], [S("user"), [0], []], [S("user"), [2], []]]):
+        for u in ([1, 1], [4, [1, 1], [2, S("r")]]):
+            gmodels.append([S("1.1"), [[S("user"), [], []], [S("group"), [], []], [S("t"), [[S("r"), u]], [[[[S("r"), [refs, [], []]]], [], []]]]], []])
     for op in ("wgraph", "pgraph"):
         res = ctx.impl([dict({"op": op, "m": m, "repeat": 1}, **({"orders": []} if op == "wgraph" else {"labels": []})) for m in gmodels])
         for m, r in zip(gmodels, res):
